@@ -46,6 +46,7 @@ STRENGTHENED = {
     # ---- round 3
     "C01-6": "C01 runs one back-propagation per response; the stale per-mode solver is caught by the sparse EigenSolve template of C03",
     "C03-5": "C03 uses a contract oracle as inner solver; the same change is caught by C05 (Cholesky success/failure histories)",
+    "C17-4": "two outer iterations whose first one loses volume: the bracket of the second iteration is compared with the documented one",
     "C06-5": "complex matrices without symmetry and with decoupled dofs whose diagonal entry is complex (single T / H solves: longer "
              "histories of this class do not finish)",
     "C07-5": "C07 builds one module per item; caught by C06 (update() with a changed sparsity pattern)",
@@ -67,14 +68,44 @@ STRENGTHENED = {
              "as 'non-finite reported value'",
     "C20-5": "transposed (not C-contiguous) array signals, every column compared with the entry its header names; the nditer stand-in "
              "follows memory order",
+    # ---- round 4
+    "C02-7": "slices of slices (a SignalSlice whose base is a SignalSlice) in the wiring grid of C02; C18 (nested slices) "
+             "caught the change as first registered",
+    "C02-8": "the fault is inside EinSum (one Signal at two operands of one contraction): caught by the new C01 items "
+             "'quad-same', 'matmat-same', 'proj-same'; C02 wires one signal twice into asymmetric Poly / MathGeneral modules "
+             "only (EinSum has no asymmetric 1-D -> 1-D expression with a supported adjoint)",
+    "C03-7": "C03 uses a contract oracle as inner solver; caught by C06 (block right-hand sides whose first column is known)",
+    "C03-8": "histories whose second cycle modifies the design array in place (x[:] = ..., the way optimisers update designs)",
+    "C04-7": "three sensitivity() calls without reset (an aliased seed doubles: 1, 2, 4); ndarray.real of real content modelled "
+             "as a view; C18 caught the change as first registered",
+    "C04-8": "C04 hands LinSolve a contract oracle; caught by the new 'right-hand side unchanged' clause of C06",
+    "C05-7": "'right-hand side unchanged by solve()' clause for every solver class, mode and memory layout (column-major "
+             "concrete twin)",
+    "C06-7": "block right-hand sides with independent columns and a small non-zero tolerance (1e-7)",
+    "C06-8": "n = 3 with a decoupled dof and a user-supplied initial guess x0",
+    "C07-7": "the disagreement between the symbolic run and its concretised twin is now replayed clause by clause on the real "
+             "library and reported as VIOLATION (it was a harness error, exit 2)",
+    "C07-8": "np.isclose / np.allclose modelled as the inequalities NumPy evaluates; matrices with couplings of 1e-6 and larger "
+             "(this also exposed the genuine defect D32)",
+    "C09-8": "the same filter object applied to a second field (constant paddings, overrides); C03 (two-cycle histories) caught "
+             "the change as first registered",
+    "C10-7": "responses that share an intermediate signal two modules deep (sensitivity left on the intermediate signal)",
+    "C11-8": "library precondition as an obligation: the pencil handed to LAPACK is the module's input (the oracle's eigenpairs "
+             "belong to that pencil)",
+    "C14-7": "parameter rules of set_parameters (xi_0, p, nsampling) as clauses",
+    "C16-8": "scaling strategy together with an active set",
+    "C17-7": "two outer iterations whose first one loses volume (objective independent of the design): target volume and "
+             "multiplier bracket of the second iteration; this also catches C17-4",
+    "C20-7": "an exception of the symbolic run that the real library does not raise now falls back to evaluating every clause on "
+             "the real library with the witness values",
+    "C20-8": "in-memory files receive data when the handle is flushed or closed (buffered-handle model); the file is read while "
+             "the module object is alive",
 }
 NOT_CAUGHT = {
     "C10-3": "outside the claim: the fault needs integer-typed design vectors (np.concatenate keeps int64, np.zeros_like then truncates "
              "fractional bounds); object arrays carry no integer/float distinction and the logical-dtype mode only tracks real/complex",
     "C16-4": "outside the claim: a floating-point overflow (exp of > 709) of a mathematically neutral log-sum-exp shift; float64 is "
              "modelled as exact reals",
-    "C17-4": "outside the claim: needs two chained outer iterations of minimize_oc (bisection bracket carried over); one outer iteration "
-             "from an arbitrary design is the bound, and the 'volume equals maxvol' clause is listed as not decided",
     "C18-4": "outside the claim: needs inf/nan entries in a sensitivity (x *= 0 keeps nan); non-finite values are not modelled",
     "C01-5": "not confirmed: z3 finds the dropped dyads (norm < 1e-12), but at that magnitude the finite-difference replay cannot tell "
              "0 from 6e-12 and the run ends inconclusive (494 sat answers, none reproduced); C15 does not finish under this change",
@@ -90,6 +121,8 @@ NOT_CAUGHT = {
     "C17-6": "outside the claim: stopping rule / convergence of the outer iteration",
     "C18-5": "outside the claim: mixing real and complex values inside one signal (listed in OUTSIDE of C18)",
     "C20-6": "outside the claim: needs an array of more than 262144 values (bound: meshes up to 15 elements per axis)",
+    "C10-8": "outside the claim: stopping rule of the outer MMA iteration (|dx|/|x| with or without scaling by the variable ranges); "
+             "convergence to the optimum is listed as not decided",
     "C12-4": "C12 itself uses one construction per item; the same change is caught by C08 (repeated constructions)",
     "C03-4": "C03 does not run CG (contract oracle as inner solver); the same change is caught by C05 (CG stopping rule)",
 }
